@@ -12,21 +12,31 @@ Inv == TypeOK /\ ExactlyOnceSoFar /\ NothingPendingWhenGone
 LEMMA InitInv == Init => Inv
   BY DEF Init, Inv, TypeOK, ExactlyOnceSoFar, NothingPendingWhenGone
 
+\* any abstract step - whatever is submitted (A), run (R) and whether the pool exists afterwards (a2) - preserves Inv
+LEMMA StepPreserves ==
+  ASSUME NEW A \in SUBSET Tasks, NEW R \in SUBSET Tasks, NEW a2 \in BOOLEAN, Inv, Step(A, R, a2)
+  PROVE  Inv'
+<1>1. TypeOK'
+  BY DEF Step, Inv, TypeOK
+<1>2. ExactlyOnceSoFar'
+  BY DEF Step, Inv, TypeOK, ExactlyOnceSoFar
+<1>3. NothingPendingWhenGone'
+  BY DEF Step, Inv, TypeOK, NothingPendingWhenGone, ExactlyOnceSoFar
+<1> QED BY <1>1, <1>2, <1>3 DEF Inv
+
 LEMMA StepInv == Inv /\ [Next]_avars => Inv'
 <1> SUFFICES ASSUME Inv, [Next]_avars PROVE Inv'
   OBVIOUS
 <1>1. CASE UNCHANGED avars
   BY <1>1 DEF Inv, TypeOK, ExactlyOnceSoFar, NothingPendingWhenGone, avars
 <1>2. CASE Next
-  <2>1. PICK A \in SUBSET Tasks, R \in SUBSET Tasks, a2 \in BOOLEAN : Step(A, R, a2)
-    BY <1>2 DEF Next
-  <2>2. TypeOK'
-    BY <2>1 DEF Step, Inv, TypeOK
-  <2>3. ExactlyOnceSoFar'
-    BY <2>1 DEF Step, Inv, TypeOK, ExactlyOnceSoFar
-  <2>4. NothingPendingWhenGone'
-    BY <2>1 DEF Step, Inv, TypeOK, NothingPendingWhenGone, ExactlyOnceSoFar
-  <2> QED BY <2>2, <2>3, <2>4 DEF Inv
+  <2>1. sub' \ sub \in SUBSET Tasks
+    BY <1>2 DEF Next, Step, Inv, TypeOK
+  <2>2. {k \in Tasks : ran'[k] # ran[k]} \in SUBSET Tasks
+    OBVIOUS
+  <2>3. alive' \in BOOLEAN
+    BY <1>2 DEF Next, Step, Inv, TypeOK
+  <2> QED BY <1>2, <2>1, <2>2, <2>3, StepPreserves DEF Next
 <1> QED BY <1>1, <1>2
 
 THEOREM Safety == Spec => [](ExactlyOnceSoFar /\ NothingPendingWhenGone)
